@@ -47,6 +47,8 @@ type scriptConn struct {
 	w         bytes.Buffer
 	closed    bool
 	deadlines []time.Time
+	// failWrites: the peer is gone for writing (the alert cannot be delivered); the connection must be closed all the same
+	failWrites bool
 }
 
 func newScriptConn(in []byte) *scriptConn { return &scriptConn{r: bytes.NewReader(in)} }
@@ -65,6 +67,9 @@ func (b *scriptConn) Write(p []byte) (int, error) {
 	defer b.mu.Unlock()
 	if b.closed {
 		return 0, net.ErrClosed
+	}
+	if b.failWrites {
+		return 0, errors.New("scripted write failure")
 	}
 	return b.w.Write(p)
 }
@@ -335,6 +340,21 @@ func TestEchHelloCases(t *testing.T) {
 			r := echResult{Key: c.key(), Opts: fmt.Sprintf("%+v", eo), Obs: o, Diff: diff}
 			if diff != "" {
 				r.Case, r.Sent = c, fmt.Sprintf("%x", rec)
+			}
+			// an abort whose alert cannot be written still closes the transport
+			if diff == "" && o.Kind == "abort" {
+				sc2 := newScriptConn(rec)
+				sc2.failWrites = true
+				func() {
+					defer func() { recover() }()
+					_, err2 := ech.NewConn(context.Background(), sc2, keyOptions(keys)...)
+					sc2.mu.Lock()
+					closed := sc2.closed
+					sc2.mu.Unlock()
+					if err2 != nil && !closed {
+						r.Diff, r.Case, r.Sent = "the alert could not be written (peer gone) and the transport was left open", c, fmt.Sprintf("%x", rec)
+					}
+				}()
 			}
 			// connections do not share state: the first record of this connection read in two steps (header, then the
 			// rest - what every TLS stack does), with another connection's NewConn and Read in between
